@@ -48,7 +48,7 @@ def gen_histories(r, n, prop, lo=10, hi=36):
         cfg = sl.base_cfg(r, mod)
         if prop == "C14":
             cfg.update({"max_clients": r.choice([0, 1, 2]), "max_subs": r.choice([0, 1, 2]), "max_conns": r.choice([1, 2, 3]),
-                        "max_inflight": r.choice([0, 1, 2])})
+                        "max_inflight": r.choice([0, 1, 2]), "max_channels": r.choice([0, 1, 2])})
         g = sl.Gen(r, cfg)
         ops = g.build(r.randint(lo, hi))
         if prop == "C05" or r.random() < 0.25:
